@@ -12,6 +12,7 @@ from __future__ import annotations
 import dataclasses
 import itertools
 import os
+import betterproto
 from typing import Any, Dict, List, Optional, Tuple
 
 from vf.core import atoms as AT
@@ -149,6 +150,20 @@ def run_atoms(names_list: List[Tuple[Tuple[str, ...], str]], t: Tally, opts: Opt
                                              {"kind": "atoms", "atoms": list(names), "package": pkg}))
                     h.to_dict()
                     t.inc("compared")
+                    # ... and so must every other message class of the module (generated
+                    # __post_init__ bodies, e.g. the deprecation warnings, only run on construction)
+                    import warnings
+                    mod = mt.module(package)
+                    for cname, cls in sorted(vars(mod).items()):
+                        if isinstance(cls, type) and issubclass(cls, betterproto.Message) and cls.__module__ == mod.__name__:
+                            with warnings.catch_warnings():
+                                warnings.simplefilter("ignore")
+                                inst = cls()
+                                if bytes(inst) != b"" or cls().parse(b"") != inst:
+                                    raise AssertionError(f"fresh {cname} misbehaves")
+                                inst.to_dict()
+                                cls().from_dict({})
+                            t.inc("compared")
                 except Exception as e:
                     out.append(Violation(["plugin", "generated-unusable"] + sorted(names),
                                          f"{names}: {type(e).__name__}: {e}"[:300],
